@@ -54,6 +54,12 @@ def pathexpr(expr):
             return compiled
 
 
+def _is_slot(element):
+    from flatland.schema.base import Slot
+
+    return isinstance(element, Slot)
+
+
 class PathExpression:
 
     def __init__(self, expr):
@@ -72,6 +78,10 @@ class PathExpression:
                 elif op is UP:
                     if el.parent is not None:
                         el = el.parent
+                        # list members are held by a semi-visible slot; the
+                        # path parent of a member is the list itself
+                        if _is_slot(el):
+                            el = el.parent
                 elif op is HERE:
                     pass
                 elif op is NAME:
